@@ -2,7 +2,7 @@
 """C05: the result does not depend on how source, stylesheet and output are supplied.
 
 Bounded EXHAUSTIVE configuration enumeration: the complete product
-    source form (8) x stylesheet form (5) x result form (6) x API layer (3)  =  720 combinations
+    source form (8) x stylesheet form (5) x result form (8) x API layer (3)  =  960 combinations
 is requested for every stylesheet/document pair of a form-sensitive pair set; combinations that do not exist in the API are
 answered 'na' (and counted), every existing one is run on a fresh transformer (harness/c05.cpp; the command line program is
 run from here) and its canonicalised result is compared with the baseline combination (stream, stream, ostream, cpp)."""
@@ -34,13 +34,13 @@ vlib.load_known = load_known_with_extra
 
 SRC = ['stream', 'file', 'parsed', 'parsed-xerces', 'xerces-wrap', 'builder', 'builder-split', 'st-wrap']
 STY = ['stream', 'file', 'compiled', 'compiled-file', 'pi']
-RES = ['ostream', 'file', 'callback', 'cdata', 'xerces-dom', 'source-tree']
+RES = ['ostream', 'file', 'callback', 'cdata', 'xerces-dom', 'source-tree', 'xerces-frag', 'source-tree-frag']
 LAYER = ['cpp', 'c', 'cli']
 DIMS = ['source', 'stylesheet', 'result', 'layer']
 BASELINE = ('stream', 'stream', 'ostream', 'cpp')
 TREE_BASELINE = ('stream', 'stream', 'xerces-dom', 'cpp')     # used only for html output that is not XML (see compare)
 PRODUCT = list(itertools.product(SRC, STY, RES, LAYER))
-TREE_RESULTS = ('xerces-dom', 'source-tree')
+TREE_RESULTS = ('xerces-dom', 'source-tree', 'xerces-frag', 'source-tree-frag')
 
 
 def cli_valid(c):
@@ -74,7 +74,7 @@ def sheet(body, top='', method=None, extra_ns='', out_attrs=''):
 DESC = ('<xsl:template name="d"><n k="{count(self::*)}{count(self::text())}{count(self::comment())}{count(self::processing-instruction())}'
         '{count(../@*[generate-id()=generate-id(current())])}" nm="{name()}" u="{namespace-uri()}"><xsl:value-of select="."/></n></xsl:template>')
 
-D_MIX = ('<!--top1--><?tp   d1  ?><r x="1" y="2" xmlns:p="urn:p"><a id="i1" p:q="3">t1<b/>t2<!--c1--><?pi1 d?><b z="9" w="8">t3</b></a>'
+D_MIX = ('<!--top1--><?tp   d1  ?><r x="1" y="2" xmlns:p="urn:p"><a id="i1" p:q="3">t1<b/>t2<!--c1--><?pi1 d?><b w="8" z="9">t3</b></a>'
          '<p:a>u</p:a><c xml:space="preserve"> <d/> </c><e> <d/>\n</e>tail</r><!--top2--><?tp2 d2?>')
 D_ID = ('<!DOCTYPE r [<!ATTLIST e id ID #IMPLIED ref IDREFS #IMPLIED tok NMTOKENS #IMPLIED><!ATTLIST f def CDATA "dflt" n NMTOKEN "k">]>'
         '<r><e id="a1" ref=" a2   a3 " tok="  x   y ">A</e><e id="a2" ref="a1">B</e><g><e id="a3">C</e><e id="a4" ref="nosuch a3">D</e></g>'
@@ -88,29 +88,41 @@ D_NUM = ('<r><s><i n="3">c</i><i n="1">a</i><k/><i n="2">b</i></s><s><i n="10">j
 D_WS = '<r>\n <a> <b/> </a>\n <p xml:space="preserve"> <q> </q> </p>\n <a>x<b> </b> y </a>\n <k xml:space="default"> <l xml:space="preserve"> </l> </k>\n</r>'
 D_LANG = '<r xml:lang="en"><a xml:lang="de-AT"><b/></a><c xml:lang=""><d/></c><e/></r>'
 D_ATTR = '<r><e zeta="1" alpha="2" mid="3" Beta="4" xmlns:n="urn:n" n:alpha="5" beta="6"/><e b="1" a="2"/></r>'
-D_PAD = '<r><t>' + ''.join('%07d;' % i for i in range(9000)) + '</t><u>é</u></r>'
+
+
+def pad_doc(nchars):
+    """string-value of the document = nchars+ characters, in 1000-character text nodes. (Not one long node and not thousands
+    of short ones: XalanDOMString::append grows its buffer to the exact size, so both building one text node from
+    one-character events and concatenating thousands of text nodes into a string-value are quadratic.)"""
+    return '<r>' + ''.join('<t>' + ''.join('%04d%05d;' % (i, j) for j in range(100)) + '</t>' for i in range(nchars // 1000 + 2)) + '</r>'
+
+
+def long_text_doc(nchars):
+    return '<r><t>' + ''.join('%07d;' % i for i in range(nchars // 8)) + '</t><u>é</u></r>'
+
 D_ENT = ('<!DOCTYPE r [<!ENTITY e "ent<i>x</i>ity"><!ENTITY pic SYSTEM "pic.gif" NDATA gif><!NOTATION gif SYSTEM "viewer">'
          '<!ATTLIST g img ENTITY #IMPLIED>]><r><t>a&e;b</t><g img="pic"/></r>')
 
 
 def many(n):
-    return '<r>' + ''.join('<i n="%d" g="%d"><j>%d</j></i>' % (i, i % 7, i) for i in range(n)) + '</r>'
+    return '<r>' + ''.join('<i g="%d" n="%d"><j>%d</j></i>' % (i % 7, i, i) for i in range(n)) + '</r>'
 
 
 def len_pair(n, method='text'):
     """output of exactly n bytes (text method) / exactly n bytes including declaration and wrapper (xml method)"""
     if method == 'text':
-        return dict(name='len-text-%d' % n, method='text', D=D_PAD,
-                    S=sheet('<xsl:value-of select="substring(/r/t,1,%d)"/>' % n, method='text'), explen=n)
+        return dict(name='len-text-%d' % n, method='text', D=pad_doc(n),
+                    S=sheet('<xsl:value-of select="substring(/r,1,%d)"/>' % n, method='text'), explen=n)
     over = len('<?xml version="1.0" encoding="UTF-8"?><o></o>')
-    return dict(name='len-xml-%d' % n, D=D_PAD, S=sheet('<o><xsl:value-of select="substring(/r/t,1,%d)"/></o>' % (n - over)), explen=n)
+    return dict(name='len-xml-%d' % n, D=pad_doc(n), S=sheet('<o><xsl:value-of select="substring(/r,1,%d)"/></o>' % (n - over)), explen=n)
 
 
 def build_pairs(tier):
     P = []
 
-    def add(name, S, D, method='xml', aux=None, params=(), expect='ok', **kw):
-        d = dict(name=name, S=S, D=D, method=method, aux=aux or {}, params=list(params), expect=expect)
+    def add(name, S, D, aux=None, params=(), expect='ok', **kw):
+        m = re.search(r'<xsl:output[^>]*\smethod="(\w+)"', S)
+        d = dict(name=name, S=S, D=D, method=m.group(1) if m else 'xml', aux=aux or {}, params=list(params), expect=expect)
         d.update(kw)
         P.append(d)
 
@@ -129,7 +141,7 @@ def build_pairs(tier):
                                        'ps1="{preceding-sibling::node()[1]}" f1="{name(following::*[1])}" fs="{count(following-sibling::node())}" '
                                        'aos="{count(ancestor-or-self::node())}" pt="{preceding::text()[1]}" pc="{preceding::comment()[1]}"/>'
                                        '</xsl:for-each></o>'), D_MIX)
-    add('position-last-all-nodes', sheet('<o n="{count(//node())}" a="{count(//@*)}" ns="{count(//namespace::*)}" t="{count(//text())}">'
+    add('position-last-all-nodes', sheet('<o n="{count(//node())}" a="{count(//@*)}" ns="{count(//namespace::*[name()!=\'xml\'])}" t="{count(//text())}">'
                                          '<xsl:for-each select="//node()"><i p="{position()}" l="{last()}" s="{string-length(.)}" nm="{name()}"/></xsl:for-each></o>'), D_MIX)
     add('top-level-nodes', sheet('<o c="{count(/comment())}" p="{count(/processing-instruction())}" n="{count(/node())}" e="{name(/*)}" '
                                  'tp="{/processing-instruction(\'tp\')}" first="{name(/node()[1])}" last="{name(/node()[last()])}" '
@@ -144,13 +156,16 @@ def build_pairs(tier):
         '<xsl:template match="@*"><a n="{name()}" v="{.}"/></xsl:template><xsl:template match="@p:q"><aq/></xsl:template><xsl:template match="b/@z" priority="3"><az p="{name(..)}"/></xsl:template>'
         '</xsl:stylesheet>' % X, D_MIX)
     add('parent-of-attr-ns', sheet('<o><xsl:for-each select="//@*"><a n="{name()}" p="{name(..)}" same="{count(..|../..)}" up="{count(ancestor::node())}"/></xsl:for-each>'
-                                   '<xsl:for-each select="//*/namespace::*"><xsl:sort select="concat(name(..),\'|\',name())"/><s n="{name()}" p="{name(..)}" v="{.}" up="{count(ancestor::node())}"/></xsl:for-each></o>'), D_MIX)
+                                   '<xsl:for-each select="//*/namespace::*[name()!=\'xml\']"><xsl:sort select="concat(name(..),\'|\',name())"/><s n="{name()}" p="{name(..)}" v="{.}" up="{count(ancestor::node())}"/></xsl:for-each></o>'), D_MIX)
 
     # --- id(), keys, DTD supplied attribute defaults and normalisation
     add('id-function', sheet('<o a="{id(\'a1\')}" b="{count(id(\'a1 a3 a2 nosuch\'))}" h="{name(id(\'a1\'))}">'
                              '<xsl:for-each select="id(\'a3 a1\')"><i v="{.}"/></xsl:for-each><xsl:for-each select="//e"><r id="{@id}" ref="[{@ref}]" tok="[{@tok}]" n="{count(id(@ref))}" '
                              'names="{id(@ref)[1]}{id(@ref)[2]}"/></xsl:for-each><x><xsl:value-of select="id(//e/@ref)"/></x><y n="{count(id(id(\'a1\')/@ref))}"/></o>'), D_ID)
     add('dtd-defaults', sheet('<o n="{count(//f/@*)}" d="{count(//f[@def=\'dflt\'])}"><xsl:for-each select="//f"><f def="{@def}" n="{@n}" c="{count(@*)}"/></xsl:for-each><xsl:copy-of select="/r/f"/></o>'), D_ID)
+    # XPath data model: there is no node for the document type declaration
+    add('doctype-is-not-a-node', sheet('<o n="{count(/node())}" all="{count(//node())}" pre="{count(/r/preceding::node())}" sib="{count(/r/preceding-sibling::node())}" first="[{name(/node()[1])}]" second="[{name(/node()[2])}]">'
+                                       '<xsl:for-each select="/node()"><i e="{count(self::*)}" p="{count(self::processing-instruction())}" nm="{name()}"><xsl:number count="node()"/></i></xsl:for-each></o>'), D_ID)
     add('key-basic', sheet('<o><xsl:for-each select="key(\'k\',\'b\') | key(\'k\',\'z\') | key(\'k\',\'id\')"><xsl:call-template name="d"/></xsl:for-each>'
                            '<c t="{count(key(\'t\',\'t\'))}" k1="{name(key(\'k\',\'d\')[1]/..)}" k2="{name(key(\'k\',\'d\')[2]/..)}"/></o>',
                            '<xsl:key name="k" match="*|@*" use="name()"/><xsl:key name="t" match="text()|comment()" use="substring(.,1,1)"/>' + DESC), D_MIX)
@@ -161,8 +176,8 @@ def build_pairs(tier):
                             '<xsl:key name="byref" match="e" use="id(@ref)/@id"/>'), D_ID)
 
     # --- namespaces
-    add('namespace-axis', sheet('<o><xsl:for-each select="//*"><e n="{name()}" u="{namespace-uri()}" l="{local-name()}" c="{count(namespace::*)}">'
-                                '<xsl:for-each select="namespace::*"><xsl:sort select="name()"/><s p="{name()}" l="{local-name()}" u="{.}" nu="{namespace-uri()}"/></xsl:for-each>'
+    add('namespace-axis', sheet('<o><xsl:for-each select="//*"><e n="{name()}" u="{namespace-uri()}" l="{local-name()}" c="{count(namespace::*[name()!=\'xml\'])}">'
+                                '<xsl:for-each select="namespace::*[name()!=\'xml\']"><xsl:sort select="name()"/><s p="{name()}" l="{local-name()}" u="{.}" nu="{namespace-uri()}"/></xsl:for-each>'
                                 '<xsl:for-each select="@*"><xsl:sort select="name()"/><a n="{name()}" u="{namespace-uri()}" l="{local-name()}"/></xsl:for-each></e></xsl:for-each></o>'), D_NS)
     add('namespace-copy', sheet('<o><x><xsl:copy-of select="//*[local-name()=\'c\']"/></x><y><xsl:for-each select="//*[local-name()=\'f\']"><xsl:copy/></xsl:for-each></y>'
                                 '<z><xsl:copy-of select="//*[local-name()=\'g\']/namespace::*"/></z><w><xsl:copy-of select="/*/*[1]"/></w></o>'), D_NS)
@@ -172,6 +187,10 @@ def build_pairs(tier):
         '<xsl:template match="pp:*"><p n="{local-name()}" u="{namespace-uri()}"/></xsl:template><xsl:template match="*"><none n="{name()}" u="{namespace-uri()}"/></xsl:template></xsl:stylesheet>' % X, D_NS)
     add('generated-prefixes', sheet('<o><xsl:for-each select="//*"><xsl:element name="{local-name()}" namespace="urn:gen:{position() mod 3}"><xsl:attribute name="q" namespace="urn:att:{position() mod 2}">v</xsl:attribute>'
                                     '<xsl:attribute name="p:r" namespace="urn:other">w</xsl:attribute></xsl:element></xsl:for-each></o>'), D_NS)
+    # the implicit xml namespace node, observed by this pair ONLY (the other namespace pairs leave it out)
+    add('xml-namespace-node', sheet('<o><xsl:for-each select="//*"><e n="{name()}" c="{count(namespace::xml)}" v="{namespace::xml}" all="{count(namespace::*)}"/></xsl:for-each></o>'), D_NS)
+    # XPath 5: namespace nodes precede attribute nodes (element c declares xmlns:q and has q:y, which sorts before "xmlns:q")
+    add('ns-before-attr', sheet('<o><xsl:for-each select="//*"><e n="{name()}"><xsl:for-each select="@* | namespace::*[name()!=\'xml\']"><i k="{count(../@*[generate-id()=generate-id(current())])}"/></xsl:for-each></e></xsl:for-each></o>'), D_NS)
     add('lang', sheet('<o><xsl:for-each select="//*"><e n="{name()}" en="{lang(\'en\')}" de="{lang(\'de\')}" deat="{lang(\'DE-at\')}" l="{ancestor-or-self::*[@xml:lang][1]/@xml:lang}"/></xsl:for-each></o>'), D_LANG)
 
     # --- generate-id
@@ -202,9 +221,12 @@ def build_pairs(tier):
                            '<z n="{count(/r/z)}" c="{count(/r/z/node())}"/><xsl:comment><xsl:value-of select="/r/w"/></xsl:comment></o>'), D_TEXT)
     add('adjacent-text', sheet('<o n="{count(/r/m/text())}" c="{count(/r/m/node())}"><xsl:for-each select="/r/m/node()"><i p="{position()}" n="{name()}" v="{.}"/></xsl:for-each><s t2="{/r/m/text()[2]}" tl="{/r/m/text()[last()]}" '
                                'j="{count(/r/m/j[1]/following-sibling::node())}" pre="{/r/m/j[2]/preceding-sibling::text()[1]}"/><tt n="{count(/r/t/text())}" w="{count(/r/w/text())}"/></o>'), D_TEXT)
-    add('long-text-node', sheet('<o n="{count(/r/t/text())}" l="{string-length(/r/t)}" l1="{string-length(/r/t/text()[1])}" end="{substring(/r/t, 71990)}" mid="{substring(/r/t, 16380, 20)} {substring(/r/t, 32760, 20)} {substring(/r/t, 65530, 20)}"/>'), D_PAD)
+    # one text node longer than the parser's 16K / 32K character buffers: the SAX events must be merged into ONE node
+    ltn = 20000 if tier == 'quick' else 40000
+    add('long-text-node', sheet('<o n="{count(/r/t/text())}" l="{string-length(/r/t)}" l1="{string-length(/r/t/text()[1])}" end="{substring(/r/t, %d)}" mid="{substring(/r/t, 16380, 20)} {substring(/r/t, 32760, 20)}"/>' % (ltn - 10)), long_text_doc(ltn))
     add('string-value-root', sheet('<o l="{string-length(/)}" n="{normalize-space(/)}"><xsl:value-of select="/"/></o>'), D_MIX)
-    add('cdata-section-elements', sheet('<o><t><xsl:value-of select="/r/t"/></t><u>]]&gt;<xsl:value-of select="/r/w"/></u></o>', out_attrs='cdata-section-elements="t u"'), D_TEXT)
+    # (no CR in the data: CR inside a CDATA section is written raw by the serializer - a C04 finding, not a supply-form matter)
+    add('cdata-section-elements', sheet('<o><t><xsl:value-of select="/r/v/@c"/>&#10;<xsl:value-of select="/r/m"/></t><u>]]&gt;<xsl:value-of select="/r/w"/></u><v>plain</v></o>', out_attrs='cdata-section-elements="t u"'), D_TEXT)
     add('result-top-level-comment-pi', sheet('<xsl:comment>before</xsl:comment><xsl:processing-instruction name="rp">data</xsl:processing-instruction><o><xsl:value-of select="count(//node())"/></o><xsl:comment>after</xsl:comment>'), D_MIX)
     add('attr-sorted-iteration', sheet('<o><xsl:for-each select="//e"><e><xsl:for-each select="@*"><xsl:sort select="name()"/><a n="{name()}" v="{.}" p="{position()}"/></xsl:for-each><xsl:copy-of select="@*"/></e></xsl:for-each></o>'), D_ATTR)
 
@@ -218,8 +240,8 @@ def build_pairs(tier):
 
     # --- other output methods / encodings
     add('text-method', sheet('<xsl:for-each select="//text()">[<xsl:value-of select="."/>]</xsl:for-each>&lt;&amp;', method='text'), D_MIX)
-    add('html-method-xmlish', sheet('<html><body class="c"><p>a &amp; b &lt; c</p><div title="t&quot;q"><span><xsl:value-of select="count(//node())"/></span></div></body></html>', method='html'), D_MIX)
-    add('html-method', sheet('<html><head><title>t</title></head><body><br/><p>é<xsl:value-of select="/r/a/b[2]"/></p><img src="x y.png"/><script>if (a &lt; b) x();</script></body></html>', method='html'), D_MIX)
+    add('html-method-xmlish', sheet('<html><body class="c"><p>a &amp; b &lt; c</p><div title="t&quot;q"><span><xsl:value-of select="count(//node())"/></span></div></body></html>', method='html', out_attrs='indent="no"'), D_MIX)
+    add('html-method', sheet('<html><head><title>t</title></head><body><br/><p>é<xsl:value-of select="/r/a/b[2]"/></p><img src="x y.png"/><script>if (a &lt; b) x();</script></body></html>', method='html', out_attrs='indent="no"'), D_MIX)
     add('encoding-latin1', sheet('<o a="{/r/w}é"><xsl:value-of select="/r/w"/>ü</o>', out_attrs='encoding="ISO-8859-1"'), D_TEXT)
 
     # --- parameters, document()
@@ -230,6 +252,12 @@ def build_pairs(tier):
                                    'rel="{document(/r/@x, /)/a/x[1]}" ids="{generate-id(document(\'c05aux.xml\'))=generate-id(document(\'c05aux.xml\'))}"><xsl:copy-of select="document(\'c05aux.xml\')/a/x[@k=\'2\']"/>'
                                    '<xsl:for-each select="document(\'c05aux.xml\')//x | //b"><i n="{name()}" v="{.}"/></xsl:for-each></o>'),
         D_MIX.replace('x="1"', 'x="c05aux.xml"'), aux={'c05aux.xml': '<a><x k="1">one</x><!--c--><x k="2">two<y/></x></a>'})
+
+    # --- stylesheet modules: href resolved against the base URI of the stylesheet, however that was supplied
+    add('include-import', '<xsl:stylesheet version="1.0" %s><xsl:import href="c05imp.xsl"/><xsl:include href="c05inc.xsl"/><xsl:template match="/"><o v="{$iv}"><xsl:apply-templates select="//b|//d"/></o></xsl:template>'
+        '<xsl:template match="b[@z]"><main><xsl:apply-imports/></main></xsl:template></xsl:stylesheet>' % X, D_MIX,
+        aux={'c05imp.xsl': '<xsl:stylesheet version="1.0" %s><xsl:variable name="iv" select="\'imported\'"/><xsl:template match="b"><imp z="{@z}"/></xsl:template><xsl:template match="d"><impd/></xsl:template></xsl:stylesheet>' % X,
+             'c05inc.xsl': '<xsl:stylesheet version="1.0" %s><xsl:template match="d"><inc p="{name(..)}"/></xsl:template></xsl:stylesheet>' % X})
 
     # --- pairs on which every combination must FAIL
     add('fail-terminate', sheet('<o><xsl:for-each select="//b"><e><xsl:if test="@z"><xsl:message terminate="yes">stop here</xsl:message></xsl:if></e></xsl:for-each></o>'), D_MIX, expect='fail')
@@ -248,24 +276,31 @@ def build_pairs(tier):
             'all-nodes': sheet('<o><xsl:for-each select="//node()|//@*"><xsl:call-template name="d"/></xsl:for-each></o>', DESC),
             'identity': sheet('<xsl:copy-of select="/"/>'),
             'axes': sheet('<o><xsl:for-each select="//node()|//@*"><c p="{count(preceding::node())}" f="{count(following::node())}" a="{count(ancestor::node())}" d="{count(descendant::node())}" '
-                          'ps="{count(preceding-sibling::node())}" fs="{count(following-sibling::node())}" ns="{count(namespace::*)}" p1="{name(preceding::node()[1])}" f1="{name(following::node()[1])}"/></xsl:for-each></o>'),
+                          'ps="{count(preceding-sibling::node())}" fs="{count(following-sibling::node())}" ns="{count(namespace::*[name()!=\'xml\'])}" p1="{name(preceding::node()[1])}" f1="{name(following::node()[1])}"/></xsl:for-each></o>'),
             'ids': sheet('<o><xsl:for-each select="//*"><e n="{name()}" i="{count(id(@x))}" j="{name(id(.))}" g="{generate-id()=generate-id(id(@id))}"/></xsl:for-each></o>'),
             'number': sheet('<o><xsl:for-each select="//node()"><n><xsl:number level="any" count="node()"/>.<xsl:number level="multiple" count="*" format="1-1"/></n></xsl:for-each></o>'),
         }
         for d in xpgen.docs():
             for on, s in obs.items():
                 add('xpgen-%s-%s' % (d.name, on), s, d.to_xml())
+        # ... and the documents of this file under the same observers (ns::xml excluded, attributes of the documents are in
+        # name order, no DOCTYPE: the three recorded Xerces-DOM differences are observed by their dedicated pairs only)
+        for dn, dt in (('mix', D_MIX), ('ns', D_NS), ('text', D_TEXT), ('ws', D_WS), ('num', D_NUM), ('many', many(40))):
+            for on in ('all-nodes', 'axes', 'number'):
+                add('own-%s-%s' % (dn, on), obs[on], dt)
+        add('long-text-node-72000', sheet('<o n="{count(/r/t/text())}" l="{string-length(/r/t)}" end="{substring(/r/t, 71990)}" mid="{substring(/r/t, 49150, 20)} {substring(/r/t, 65530, 20)}"/>'), long_text_doc(72000))
         add('attr-unsorted-iteration', sheet('<o><xsl:for-each select="//e"><e first="{name(@*[1])}" last="{name(@*[last()])}"><xsl:for-each select="@*"><a n="{name()}" p="{position()}"/></xsl:for-each></e></xsl:for-each></o>'), D_ATTR)
-        add('namespace-axis-unsorted', sheet('<o><xsl:for-each select="//*"><e n="{name()}" first="{name(namespace::*[1])}"><xsl:for-each select="namespace::*"><s p="{name()}"/></xsl:for-each></e></xsl:for-each></o>'), D_NS)
+        add('namespace-axis-unsorted', sheet('<o><xsl:for-each select="//*"><e n="{name()}" first="{name(namespace::*[name()!=\'xml\'][1])}"><xsl:for-each select="namespace::*[name()!=\'xml\']"><s p="{name()}"/></xsl:for-each></e></xsl:for-each></o>'), D_NS)
         add('internal-entity', sheet('<o n="{count(/r/t/node())}" t="{count(/r/t/text())}" t1="{/r/t/text()[1]}" t2="{/r/t/text()[2]}"><xsl:copy-of select="/r/t"/></o>'), D_ENT)
         add('unparsed-entity-uri', sheet('<o u="{substring-after(unparsed-entity-uri(/r/g/@img), \'/c05.\')}" none="[{unparsed-entity-uri(\'nosuch\')}]"/>'), D_ENT)
         add('document-self', sheet('<o n="{count(document(\'\')//xsl:template)}" v="{document(\'\')/*/xsl:variable[@name=\'marker\']}"/>', '<xsl:variable name="marker">here</xsl:variable>'), D_MIX)
         add('result-top-level-text', sheet('lead<a/>mid<b/>'), D_MIX)
+        add('result-top-level-whitespace', sheet('<xsl:text>&#10; </xsl:text><xsl:value-of select="substring(/r/e, 1, 1)"/><xsl:copy-of select="/r/c/text()[1]"/><o/><xsl:text>&#10;</xsl:text><xsl:value-of select="substring(\'  xyz\', 1, 2)"/>'), D_MIX)
         add('result-two-roots', sheet('<a/><b/>'), D_MIX)
         add('encoding-utf16', sheet('<o><xsl:value-of select="/r/w"/></o>', out_attrs='encoding="UTF-16"'), D_TEXT)
         add('doctype-output', sheet('<o><xsl:value-of select="/r/w"/></o>', out_attrs='doctype-system="o.dtd" doctype-public="-//X//Y"'), D_TEXT)
-        add('huge-identity', sheet('<xsl:copy-of select="/"/>'), many(12000))
-        add('huge-preceding', sheet('<o a="{count((//j)[last()]/preceding::node())}" b="{count((//i)[6000]/following::*)}" c="{name((//j)[last()]/preceding::*[2])}" k="{count(key(\'g\',\'3\'))}" kl="{key(\'g\',\'3\')[last()]/@n}"/>', '<xsl:key name="g" match="i" use="@g"/>'), many(12000))
+        add('huge-identity', sheet('<xsl:copy-of select="/"/>'), many(5000))
+        add('huge-preceding', sheet('<o a="{count((//j)[last()]/preceding::node())}" b="{count((//i)[2500]/following::*)}" c="{name((//j)[last()]/preceding::*[2])}" k="{count(key(\'g\',\'3\'))}" kl="{key(\'g\',\'3\')[last()]/@n}"/>', '<xsl:key name="g" match="i" use="@g"/>'), many(5000))
     names = [p['name'] for p in P]
     assert len(names) == len(set(names)), 'duplicate pair name'
     return P
@@ -291,11 +326,12 @@ def materialise(pair):
 # running one combination
 
 class Driver:
-    def __init__(self, tag, exe='c05'):
+    def __init__(self, tag, exe=os.environ.get('C05_HARNESS', 'c05')):      # C05_HARNESS: scratch build for the sensitivity demonstration
         self.dir = os.path.join(vlib.BUILD, 'tmp', 'c05.%s' % tag)
         shutil.rmtree(self.dir, ignore_errors=True)
         os.makedirs(self.dir, exist_ok=True)
-        self.w = vlib.Worker(exe, args=[self.dir], stderr_path=os.path.join(vlib.BUILD, 'tmp', 'c05.%s.err' % tag), timeout=120)
+        self.w = vlib.Worker(exe, args=[self.dir], stderr_path=os.path.join(vlib.BUILD, 'tmp', 'c05.%s.err' % tag), timeout=120,
+                             env={'ASAN_OPTIONS': vlib.ASAN_ENV['ASAN_OPTIONS'] + ':quarantine_size_mb=16'})
         self.defs = {}
         self.w.on_restart = lambda w: self.define(self.defs)
 
@@ -414,7 +450,27 @@ def is_ws(t):
     return all(c in ' \t\r\n' for c in t)
 
 
+_CANON = {}
+
+
 def canon_tree(b):
+    k = hash(b), len(b)
+    if k not in _CANON:
+        if len(_CANON) > 64:
+            _CANON.clear()
+        try:
+            _CANON[k] = (b, _canon_tree(b), None)
+        except Exception as e:
+            _CANON[k] = (b, None, e)
+    ent = _CANON[k]
+    if ent[0] != b:
+        return _canon_tree(b)
+    if ent[2] is not None:
+        raise ent[2]
+    return ent[1]
+
+
+def _canon_tree(b):
     """canonical form of a serialised result taken as a well-formed external general parsed entity (XSLT 16.1): it is parsed
     inside a wrapper element, so that top-level text / several top-level elements / nothing at all are representable;
     whitespace-only text at the top level is not part of a result tree's content and is dropped."""
@@ -439,11 +495,25 @@ def tree_text(kids):
     return ''.join(out)
 
 
+def is_document(pair, out):
+    """is the (baseline) result a well-formed DOCUMENT: one element, no text beside it (XSLT allows any entity)"""
+    if pair['method'] == 'text':
+        return False
+    try:
+        kids = canon_tree(out)
+    except Exception:
+        return pair['method'] == 'html'
+    return len([k for k in kids if k[0] == 'elem']) == 1 and not [k for k in kids if k[0] == 'text']
+
+
 def compare(pair, combo, base, got, treebase=None):
     """-> None when equivalent, else (kind, explanation)"""
     bok, gok = base['rc'] == 0, got['rc'] == 0
     if bok != gok:
-        return ('rc-differs', 'baseline rc %d, this combination rc %d (%s)' % (base['rc'], got['rc'], (got['errtext'] or base['errtext'])[:300]))
+        kind = 'rc-differs'
+        if bok and not is_document(pair, base['out']):
+            kind += '/non-document-result'
+        return (kind, 'baseline rc %d, this combination rc %d (%s)' % (base['rc'], got['rc'], (got['errtext'] or base['errtext'])[:300]))
     if not gok:
         if not got['err']:
             return ('no-error-text', 'rc %d without an error message' % got['rc'])
@@ -581,17 +651,20 @@ def collapse(failing, universe):
     if failing == set(universe):
         return [('all-combinations', sorted(failing))]
     for k in (1, 2, 3):
+        cand = {}
         for dims in itertools.combinations(range(4), k):
-            seen = set()
             for c in sorted(failing):
-                key = tuple(c[d] for d in dims)
-                if key in seen:
+                label = ','.join('%s=%s' % (DIMS[d], c[d]) for d in dims)
+                if label in cand:
                     continue
-                seen.add(key)
                 cube = [u for u in universe if all(u[d] == c[d] for d in dims)]
-                if cube and all(u in failing for u in cube) and any(u in left for u in cube):
-                    out.append((','.join('%s=%s' % (DIMS[d], c[d]) for d in dims), sorted(cube)))
-                    left.difference_update(cube)
+                if cube and all(u in failing for u in cube):
+                    cand[label] = cube
+        # largest cubes first, so that a cube contained in another one of the same rank is never reported beside it
+        for label, cube in sorted(cand.items(), key=lambda kv: (-len(kv[1]), kv[0])):
+            if any(u in left for u in cube):
+                out.append((label, sorted(cube)))
+                left.difference_update(cube)
         if not left:
             break
     for c in sorted(left):
@@ -676,7 +749,7 @@ def main():
         pair = pairs[pi]
         bycombo = {c: (why, got) for c, why, got in items}
         for label, cube in collapse(bycombo.keys(), universe):
-            ex = next(c for c in cube if c in bycombo)
+            ex = max((c for c in cube if c in bycombo), key=lambda c: (sum(1 for i in range(4) if c[i] == BASELINE[i]), c))
             why, got = bycombo[ex]
             viols.append(vlib.Violation('%s|%s|%s' % (pair['name'], label, kind), {
                 'pair': pair, 'combination': list(ex), 'combinations_failing': [','.join(c) for c in cube][:60], 'n_failing': len(cube),
